@@ -509,82 +509,62 @@ example : (ExecutorConc.run (some (downgradingPolicyL [4, 1])) (ExecutorConc.ini
 
 /-! ### cancellation at every point of concurrent executions (`ExecutorConc.MC`, `stepC`)
 
-`derived = true`: the statement's attempts run under the executor's derived context (`*Query`:
-`Conn.executeQuery(ctx, qry)` → `c.exec(ctx, …)`); `derived = false`: under the caller's own context (`*Batch`:
-`Conn.executeBatch(ctx, b)` → `c.exec(batch.Context(), …)`). -/
+Every statement kind runs its attempts under the executor's derived context: `Conn.executeQuery(ctx, qry)` and —
+since the repair of KF-C13-2 — `Conn.executeBatch(ctx, b)` pass `ctx` on to `Conn.exec`. -/
 
-/-- FULL STATEMENT (fails on the unchanged code for `*Batch`, proposed finding KF-C13-2): once `executeQuery` has
-    returned the caller's one result — and with it cancelled the context of its executions — no request of the
-    statement reaches a server any more:
-      ∀ derived pol c sched, c.execDone = true → (runC pol derived c sched).m.sent = c.m.sent.
-    Proved part: it holds whenever the cancellation reaches the attempts, i.e. for every `*Query` (`derived`) after
-    the result or the caller's cancellation, and for every statement kind after the CALLER's context is done — from
-    EVERY state (executions not launched, with a request in flight, with an attempt counted and the retry decision
-    pending), every policy, every further schedule, whatever answers still come in. -/
-theorem C13_cancel_stops_requests_partial (pol : Option Policy) (derived : Bool) (c : ExecutorConc.MC)
-    (sched : List ExecutorConc.ActC) (h : c.attDone derived = true) :
-    (ExecutorConc.runC pol derived c sched).m.sent = c.m.sent ∧
-    (ExecutorConc.runC pol derived c sched).attDone derived = true :=
-  let r := ExecutorConc.runC_frozen pol derived sched c h
+/-- **cancellation stops further attempts; the losers stop with the result**: once `executeQuery` has returned the
+    caller's one result — and with it cancelled the context of its executions — or the caller's own context is
+    done, no request of the statement reaches a server any more: from EVERY state (executions not launched, with a
+    request in flight, with an attempt counted and the retry decision pending), every statement kind, every policy,
+    every further schedule, whatever answers still come in -/
+theorem C13_cancel_stops_requests (pol : Option Policy) (c : ExecutorConc.MC)
+    (sched : List ExecutorConc.ActC) (h : c.execDone = true ∨ c.callerDone = true) :
+    (ExecutorConc.runC pol c sched).m.sent = c.m.sent ∧
+    (ExecutorConc.runC pol c sched).attDone = true :=
+  let r := ExecutorConc.runC_frozen pol sched c (by rcases h with h | h <;> simp [ExecutorConc.MC.attDone, h])
   ⟨r.2, r.1⟩
-
-/-- the counterexample on the code as it is (`derived = false`, a logged/unlogged/counter batch): two executions in
-    flight, the first is answered, the caller has its result and the executor has cancelled its context — the second
-    execution's request is answered with an error later and the batch is sent to a third host -/
-theorem C13_cex_batch_loser_not_cancelled :
-    let c := ExecutorConc.runC (some (simplePolicy 2)) false (ExecutorConc.initC 0 3 2)
-      [.ex (.launch 0), .ex (.launch 1), .ex (.complete 0 .ok), .ex (.decide 0), .execCancel]
-    let c' := ExecutorConc.runC (some (simplePolicy 2)) false c [.ex (.complete 1 (.err 9)), .ex (.decide 1)]
-    c.result = some (.res .ok) ∧ c.execDone = true ∧ c.m.sent = 2 ∧ c'.m.sent = 3 := by
-  decide
 
 /-- **the caller's cancellation stops further attempts, every statement kind**: whatever has happened before
     (`pre`), after the caller's context is done no further request is sent, for every policy and every further
     schedule; (`C13_shared_quiescent_accounted`: each execution still counts at most one attempt that reaches no
     server) -/
-theorem C13_caller_cancel_stops_requests (pol : Option Policy) (derived : Bool) (c0 hosts e : Nat)
+theorem C13_caller_cancel_stops_requests (pol : Option Policy) (c0 hosts e : Nat)
     (pre post : List ExecutorConc.ActC) :
-    (ExecutorConc.runC pol derived (ExecutorConc.initC c0 hosts e) (pre ++ .callerCancel :: post)).m.sent =
-    (ExecutorConc.runC pol derived (ExecutorConc.initC c0 hosts e) pre).m.sent := by
+    (ExecutorConc.runC pol (ExecutorConc.initC c0 hosts e) (pre ++ .callerCancel :: post)).m.sent =
+    (ExecutorConc.runC pol (ExecutorConc.initC c0 hosts e) pre).m.sent := by
   rw [ExecutorConc.runC_append]
   simp only [ExecutorConc.runC, List.foldl_cons]
-  have h := ExecutorConc.runC_frozen pol derived post
-    (ExecutorConc.stepC pol derived (List.foldl (ExecutorConc.stepC pol derived) (ExecutorConc.initC c0 hosts e) pre) .callerCancel)
+  have h := ExecutorConc.runC_frozen pol post
+    (ExecutorConc.stepC pol (List.foldl (ExecutorConc.stepC pol) (ExecutorConc.initC c0 hosts e) pre) .callerCancel)
     (by simp [ExecutorConc.stepC, ExecutorConc.MC.attDone])
   exact h.2
 
-/-- **a `*Query`'s losing executions stop with the result**: once the executor has cancelled its context
-    (`execCancel`, which it does only with a result in hand) no further request of the query is sent -/
-theorem C13_query_result_stops_requests (pol : Option Policy) (c : ExecutorConc.MC) (sched : List ExecutorConc.ActC)
-    (h : c.execDone = true) : (ExecutorConc.runC pol true c sched).m.sent = c.m.sent :=
-  (ExecutorConc.runC_frozen pol true sched c (by simp [ExecutorConc.MC.attDone, h])).2
-
 /-- **exactly one result, the first**: what the caller holds never changes, whatever the executions do afterwards -/
-theorem C13_first_result_wins (pol : Option Policy) (derived : Bool) (c : ExecutorConc.MC) (r : ExecutorConc.CRes)
-    (sched : List ExecutorConc.ActC) (h : c.result = some r) : (ExecutorConc.runC pol derived c sched).result = some r :=
-  ExecutorConc.runC_result pol derived r sched c h
+theorem C13_first_result_wins (pol : Option Policy) (c : ExecutorConc.MC) (r : ExecutorConc.CRes)
+    (sched : List ExecutorConc.ActC) (h : c.result = some r) : (ExecutorConc.runC pol c sched).result = some r :=
+  ExecutorConc.runC_result pol r sched c h
 
 /-- **the caller waits exactly as long as nothing has completed**: in every reachable state without a result no
     execution has returned and neither context is done — so the first execution to return (or the caller's own
     cancellation) is what produces the result, and the executor cancels nothing before it has one -/
-theorem C13_result_iff_completed (pol : Option Policy) (derived : Bool) (c0 hosts e : Nat) (sched : List ExecutorConc.ActC) :
-    let c := ExecutorConc.runC pol derived (ExecutorConc.initC c0 hosts e) sched
+theorem C13_result_iff_completed (pol : Option Policy) (c0 hosts e : Nat) (sched : List ExecutorConc.ActC) :
+    let c := ExecutorConc.runC pol (ExecutorConc.initC c0 hosts e) sched
     c.result = none → c.callerDone = false ∧ c.execDone = false ∧ ExecutorConc.wsum ExecutorConc.wD c.m.exs = 0 := by
   intro c hr
-  have w := ExecutorConc.runC_waiting pol derived sched (ExecutorConc.initC c0 hosts e)
+  have w := ExecutorConc.runC_waiting pol sched (ExecutorConc.initC c0 hosts e)
     (fun _ => ExecutorConc.waiting_init c0 hosts e) hr
   exact ⟨w.caller, w.exec, w.none_done⟩
 
 /-- **budget and accounting with cancellation**: the bounds of `C13_shared_counter_budget` and the numbering of
     `C13_shared_attempts_numbered` hold for every schedule that contains cancellations at any point -/
-theorem C13_cancel_budget (p : Policy) (N : Nat) (hp : ∀ m, p.attempt m = decide (m ≤ N)) (derived : Bool)
+theorem C13_cancel_budget (p : Policy) (N : Nat) (hp : ∀ m, p.attempt m = decide (m ≤ N))
     (c0 hosts e : Nat) (sched : List ExecutorConc.ActC) :
-    let m := (ExecutorConc.runC (some p) derived (ExecutorConc.initC c0 hosts e) sched).m
+    let m := (ExecutorConc.runC (some p) (ExecutorConc.initC c0 hosts e) sched).m
     m.sent ≤ ExecutorConc.budget (N - c0) e ∧ m.log = ExecutorConc.down c0 (m.cnt - c0) ∧
     (ExecutorConc.quiet m.exs = true → m.cnt = c0 + m.sent + m.unsent) := by
   intro m
   have hi : ExecutorConc.Inv N c0 e m :=
-    ExecutorConc.runC_inv p N hp derived c0 e sched _ (ExecutorConc.inv_init N c0 hosts e)
+    ExecutorConc.runC_inv p N hp c0 e sched _ (ExecutorConc.inv_init N c0 hosts e)
   have hs : ExecutorConc.wsum ExecutorConc.wS m.exs ≤ e := by
     rw [← hi.toAcc.len]
     exact ExecutorConc.wsum_le_length ExecutorConc.wS (by intro x; cases x <;> simp [ExecutorConc.wS]) _
@@ -601,21 +581,21 @@ theorem C13_cancel_budget (p : Policy) (N : Nat) (hp : ∀ m, p.attempt m = deci
     DowngradingConsistencyRetryPolicy, and so does the statement afterwards; under a policy that never sets a level
     (Simple, ExponentialBackoff, none) every request carries the statement's own. The machine underneath is the one
     of the theorems above (`runK … .c = runC …`). -/
-theorem C13_shared_consistency (derived : Bool) (c0 hosts e cons0 : Nat) (sched : List ExecutorConc.ActC) :
+theorem C13_shared_consistency (c0 hosts e cons0 : Nat) (sched : List ExecutorConc.ActC) :
     (∀ ls : List Nat,
-      let k := ExecutorConc.runK (some (downgradingPolicyL ls)) derived (ExecutorConc.initK c0 hosts e cons0) sched
+      let k := ExecutorConc.runK (some (downgradingPolicyL ls)) (ExecutorConc.initK c0 hosts e cons0) sched
       (∀ x ∈ k.reqCons, x = cons0 ∨ x ∈ ls) ∧ (k.cons = cons0 ∨ k.cons ∈ ls)) ∧
     (∀ pol : Option Policy, (∀ p n, pol = some p → p.newCons n = none) →
-      let k := ExecutorConc.runK pol derived (ExecutorConc.initK c0 hosts e cons0) sched
+      let k := ExecutorConc.runK pol (ExecutorConc.initK c0 hosts e cons0) sched
       (∀ x ∈ k.reqCons, x = cons0) ∧ k.cons = cons0) ∧
-    (∀ pol : Option Policy, (ExecutorConc.runK pol derived (ExecutorConc.initK c0 hosts e cons0) sched).c =
-      ExecutorConc.runC pol derived (ExecutorConc.initC c0 hosts e) sched) := by
+    (∀ pol : Option Policy, (ExecutorConc.runK pol (ExecutorConc.initK c0 hosts e cons0) sched).c =
+      ExecutorConc.runC pol (ExecutorConc.initC c0 hosts e) sched) := by
   have start : ∀ pol : Option Policy, ExecutorConc.Level pol cons0 (ExecutorConc.initK c0 hosts e cons0).cons ∧
       ∀ x ∈ (ExecutorConc.initK c0 hosts e cons0).reqCons, ExecutorConc.Level pol cons0 x :=
     fun pol => ⟨Or.inl rfl, by intro x hx; simp [ExecutorConc.initK] at hx⟩
-  refine ⟨?_, ?_, fun pol => ExecutorConc.runK_c pol derived sched _⟩
+  refine ⟨?_, ?_, fun pol => ExecutorConc.runK_c pol sched _⟩
   · intro ls k
-    have h := ExecutorConc.runK_level (some (downgradingPolicyL ls)) derived cons0 sched _ (start _)
+    have h := ExecutorConc.runK_level (some (downgradingPolicyL ls)) cons0 sched _ (start _)
     have conv : ∀ x, ExecutorConc.Level (some (downgradingPolicyL ls)) cons0 x → x = cons0 ∨ x ∈ ls := by
       intro x hx
       rcases hx with hx | ⟨p, n, hp, hn⟩
@@ -628,7 +608,7 @@ theorem C13_shared_consistency (derived : Bool) (c0 hosts e cons0 : Nat) (sched 
         · exact Or.inr (List.mem_of_getElem? hn)
     exact ⟨fun x hx => conv x (h.2 x hx), conv _ h.1⟩
   · intro pol hnone k
-    have h := ExecutorConc.runK_level pol derived cons0 sched _ (start _)
+    have h := ExecutorConc.runK_level pol cons0 sched _ (start _)
     have conv : ∀ x, ExecutorConc.Level pol cons0 x → x = cons0 := by
       intro x hx
       rcases hx with hx | ⟨p, n, hp, hn⟩
@@ -639,7 +619,7 @@ theorem C13_shared_consistency (derived : Bool) (c0 hosts e cons0 : Nat) (sched 
 /-- non-vacuity: execution 0 fails and decides (level 6 → 4), THEN execution 1 is launched: its FIRST request
     already carries the downgraded level -/
 example :
-    let k := ExecutorConc.runK (some (downgradingPolicyL [4, 1])) true (ExecutorConc.initK 0 3 2 6)
+    let k := ExecutorConc.runK (some (downgradingPolicyL [4, 1])) (ExecutorConc.initK 0 3 2 6)
       [.ex (.launch 0), .ex (.complete 0 (.err kReadTO)), .ex (.decide 0), .ex (.launch 1)]
     (k.reqCons, k.cons) = ([4, 4, 6], 4) := by decide
 
@@ -647,14 +627,14 @@ example :
     back with the context's error), one whose Retry decision is pending (its next attempt reaches no server) and
     one not launched (it takes a host, its attempt reaches no server): 3 requests, 3 + 2 attempts counted -/
 example :
-    let c := ExecutorConc.runC (some (downgradingPolicyL [1, 1, 1, 1])) true (ExecutorConc.initC 0 5 4)
+    let c := ExecutorConc.runC (some (downgradingPolicyL [1, 1, 1, 1])) (ExecutorConc.initC 0 5 4)
       [.ex (.launch 0), .ex (.launch 1), .ex (.launch 2), .ex (.complete 2 (.err kReadTO)), .ex (.complete 0 .ok),
        .ex (.decide 0), .execCancel, .ex (.complete 1 .logical), .ex (.decide 1), .ex (.decide 2), .ex (.launch 3)]
     (c.result, c.m.sent, c.m.cnt, c.m.unsent, ExecutorConc.quiet c.m.exs) = (some (.res .ok), 3, 5, 2, true) := by decide
 
 /-- … and the caller's cancellation before any answer: the caller holds the context's error, nothing more is sent -/
 example :
-    let c := ExecutorConc.runC (some (simplePolicy 3)) false (ExecutorConc.initC 0 4 2)
+    let c := ExecutorConc.runC (some (simplePolicy 3)) (ExecutorConc.initC 0 4 2)
       [.ex (.launch 0), .callerCancel, .ex (.launch 1), .ex (.complete 0 (.err 9)), .ex (.decide 0)]
     (c.result, c.m.sent, c.m.cnt, c.m.unsent) = (some (.res .logical), 1, 3, 2) := by decide
 
